@@ -165,6 +165,27 @@ func evalC01(h *hz.H, sp *enum.Space, c enum.Case, b bounds, replayDet *bool, au
 			h.Sample(map[string]interface{}{"value": sp.Label(c), "deterministic": det, "encoding_hex": fmt.Sprintf("%x", clip(enc))})
 		}
 	}
+	// the same object again after it has been emptied in place (every populated field cleared through the generated
+	// reflection API, unknown fields dropped): whatever the earlier Marshal/Size calls remembered must not leak into the
+	// encoding of the now empty message, alone or nested in a parent
+	if len(c) > 0 && len(c) <= 2 && replayDet == nil || aux == "emptied-in-place" {
+		var enc []byte
+		var err error
+		p := hz.Catch(func() {
+			m := g.ProtoReflect()
+			var fds []protoreflect.FieldDescriptor
+			m.Range(func(fd protoreflect.FieldDescriptor, _ protoreflect.Value) bool { fds = append(fds, fd); return true })
+			for _, fd := range fds {
+				m.Clear(fd)
+			}
+			m.SetUnknown(nil)
+			enc, err = proto.Marshal(g)
+		})
+		h.Eval(true, hz.Hash("C01emptied", string(sp.MD.FullName()), canon))
+		if p != nil || err != nil || len(enc) != 0 {
+			h.Violate(caseKey("C01", "emptied-in-place", sp, c), fmt.Sprintf("%s was marshalled, then emptied in place (Clear of every populated field): Marshal now gives %x (err %v, panic %v), want no bytes", sp.Label(c), clip(enc), err, p), mkCase(sp, c, b, true, "emptied-in-place"))
+		}
+	}
 }
 
 func clip(b []byte) []byte {
